@@ -8,6 +8,9 @@ use self::chunks::read_chunks;
 use super::read_metadata;
 use crate::binning_index::index::reference_sequence::{Bin, Metadata, index::BinnedIndex};
 
+// The count comes from the input: use it as a capacity hint only up to this bound.
+const MAX_PREALLOCATED_LEN: usize = 1 << 16;
+
 pub(super) async fn read_bins<R>(
     reader: &mut R,
     depth: u8,
@@ -28,8 +31,8 @@ where
         usize::try_from(n).map_err(|e| io::Error::new(io::ErrorKind::InvalidData, e))
     })?;
 
-    let mut bins = IndexMap::with_capacity(n_bin);
-    let mut index = BinnedIndex::with_capacity(n_bin);
+    let mut bins = IndexMap::with_capacity(n_bin.min(MAX_PREALLOCATED_LEN));
+    let mut index = BinnedIndex::with_capacity(n_bin.min(MAX_PREALLOCATED_LEN));
 
     let metadata_id = Bin::metadata_id(depth);
     let mut metadata = None;
